@@ -140,6 +140,18 @@ def gen_irset(rng, special=None, toggle=None, dense=None, long_text=None):
             keys.append(f"{pre}{m}{t}" + rng.choice(["", "_f0", "_f2", "_f1_d1"]))
         if rng.random() < 0.5:
             keys.insert(rng.randrange(len(keys) + 1), rng.choice(["off", pre + "aa", pre + "ad_f1", "FUN_d1"]))
+    if rng.random() < 0.08:
+        # sets that store codes in less usual shapes: COOL / HEAT without any temperature (only the bare mode key, or mode + fan),
+        # and AUTO / DRY / FAN entries that do carry one
+        pre = "on_" if toggle and rng.random() < 0.5 else ""
+        keys = [k for k in keys if not (k.startswith(pre + "ar") or k.startswith(pre + "ah"))]
+        for m in ("ar", "ah"):
+            if rng.random() < 0.8:
+                keys += rng.sample([pre + m, f"{pre}{m}_f1", f"{pre}{m}_f2_d1", f"{pre}{m}_f0"], rng.randrange(1, 4))
+        for m in ("aa", "ad", "aw"):
+            if rng.random() < 0.5:
+                keys.append(f"{pre}{m}{rng.randrange(16, 31)}_f{rng.randrange(4)}")
+        rng.shuffle(keys)
     if not keys:
         keys = ["aa"]
 
